@@ -4,7 +4,7 @@
 SCHED_CLAUSE = {
     "avail": "C01", "cycle-not-reported": "C04", "served": "C01", "served-notify": "C01", "update-raised": "C01",
     "choice": "C02",
-    "time-before": "C03", "no-late-update": "C03", "monotone": "C03", "times": "C03",
+    "time-before": "C03", "no-late-update": "C03", "updated-after-finished": "C03", "monotone": "C03", "times": "C03",
     "end-reached": "C03", "final-times": "C03", "lifecycle": "C03", "update-count": "C03",
     "finalized": "C03", "adapters-finalized-once": "C03", "terminates": "C03",
     "false-cycle": "C04", "false-cycle-zone": "C04", "cycle-in-connect": "C04",
@@ -21,7 +21,7 @@ SCHED_CLAUSE = {
 SCHED_INV = {
     "AvailableAtUpdate": "C01", "NoRefusedPull": "C01",
     "OnlyAllowedChoices": "C02",
-    "Monotone": "C03", "NoLateUpdate": "C03", "EndReached": "C03", "Terminates": "C03",
+    "Monotone": "C03", "NoLateUpdate": "C03", "NoUpdateAfterFinished": "C03", "EndReached": "C03", "Terminates": "C03",
     "NoFalseCycle": "C04", "CycleOnlyWhenReachable": "C04", "ResolvedCompletes": "C04",
     "UnbrokenReported": "C04", "UnbrokenNeverErr": "C04",
 }
